@@ -487,11 +487,76 @@ func indexGrid(name string, b []byte, feat string) []*Case {
 			out = append(out, mkCase(fmt.Sprintf("%s+start=%d", name, v), "index-grid", feat, splice(b, insertAt, 0, sec), "start-section-inserted"))
 		}
 	}
+	// PAIRS: two dangling indexes at once.  Each validator of a section may rely on "the other one has been checked" -
+	// which holds only for the order in which the validators run (a start section naming an imported function whose
+	// type index is out of range is looked at before the imports are).  (a) every index field at its bound x an
+	// inserted start section naming every function; (b) pairs of index fields, both at their bound (capped per module).
+	var idx []Field
+	for _, f := range w.Fields {
+		if len(space(f.Kind)) > 0 {
+			idx = append(idx, f)
+		}
+	}
+	if !hasStart {
+		for _, f := range idx {
+			n := space(f.Kind)[0]
+			if n == f.Val {
+				continue
+			}
+			mb := replaceField(b, w, f, u32(n), true)
+			mw := WalkModule(mb)
+			if mw.Err != "" {
+				continue
+			}
+			at := len(mb)
+			for _, sc := range mw.Sections {
+				if sc.ID >= 9 && sc.ID <= 11 && sc.Start < at {
+					at = sc.Start
+				}
+			}
+			for v := uint64(0); v < w.NFuncs && v < 6; v++ {
+				sec := append([]byte{8}, u32(uint64(len(u32(v))))...)
+				sec = append(sec, u32(v)...)
+				out = append(out, mkCase(fmt.Sprintf("%s@%s=%d+start=%d", name, f.Kind, n, v), "index-grid", feat, splice(mb, at, 0, sec), "index-at-bound:"+f.Kind+"+start-section-inserted"))
+			}
+		}
+	}
+	pairs := 0
+	for i := 0; i < len(idx) && pairs < 60; i++ {
+		for j := i + 1; j < len(idx) && pairs < 60; j++ {
+			f1, f2 := idx[i], idx[j]
+			n1, n2 := space(f1.Kind)[0], space(f2.Kind)[0]
+			if n1 == f1.Val || n2 == f2.Val || f1.Kind == f2.Kind && (i+j)%3 != 0 {
+				continue
+			}
+			// the later field first, so that the earlier one's position is still valid
+			mb := replaceField(b, w, f2, u32(n2), true)
+			mw := WalkModule(mb)
+			if mw.Err != "" {
+				continue
+			}
+			var g *Field
+			for k := range mw.Fields {
+				if mw.Fields[k].Kind == f1.Kind && mw.Fields[k].Pos == f1.Pos {
+					g = &mw.Fields[k]
+				}
+			}
+			if g == nil {
+				continue
+			}
+			out = append(out, mkCase(fmt.Sprintf("%s@%s=%d@%s=%d", name, f1.Kind, n1, f2.Kind, n2), "index-grid", feat, replaceField(mb, mw, *g, u32(n1), true), "index-pair-at-bound:"+f1.Kind+"+"+f2.Kind))
+			pairs++
+		}
+	}
 	return out
 }
 
 func pickFeat(r *rand.Rand) string {
-	switch k := r.Intn(10); {
+	switch k := r.Intn(12); {
+	case k == 10:
+		return []string{"v1b", "v1r", "v1m"}[r.Intn(3)]
+	case k == 11:
+		return "v1b"
 	case k < 2:
 		return "v1"
 	case k < 7:
